@@ -317,7 +317,13 @@ func (es *EsStream) RtmpMessages(withMeta bool) []EsMsg {
 		pairs := []ref.AmfPair{{Key: "width", Val: ref.AmfNum(640)}, {Key: "height", Val: ref.AmfNum(360)}, {Key: "lvinc", Val: ref.AmfNum(float64(es.Inc))}, {Key: "lvver", Val: ref.AmfNum(0)},
 			{Key: "audiocodecid", Val: ref.AmfNum(id)}}
 		if es.Spec.MetaAudio == 2 {
-			rate := map[string]float64{"aac": float64(es.AClock), "g711a": 8000, "g711u": 8000, "opus": 16000}[es.Spec.ACodec]
+			// (for AAC the metadata of real encoders often disagrees with the AudioSpecificConfig: HE-AAC
+			// announces the output rate, the ASC the core rate - the ASC is what counts)
+			aacMeta := float64(es.AClock * 2)
+			if es.AClock > 48000 {
+				aacMeta = float64(es.AClock / 2)
+			}
+			rate := map[string]float64{"aac": aacMeta, "g711a": 8000, "g711u": 8000, "opus": 16000}[es.Spec.ACodec]
 			pairs = append(pairs, ref.AmfPair{Key: "audiosamplerate", Val: ref.AmfNum(rate)})
 		}
 		out = append(out, EsMsg{18, ts0, ref.AmfEncodeAll(ref.AmfStr("@setDataFrame"), ref.AmfStr("onMetaData"), ref.AmfObj(pairs...)), -1})
